@@ -117,4 +117,4 @@ theorem proveSpec_truthful (hs : H.Sound) (L : Nat) (S : List (Key × VH)) (hc :
       · simp [Verified.confirmNonexistence, hin, ht] at hb
 
 end Nomt
-#print axioms Nomt.proveSpec_truthful
+
